@@ -69,6 +69,11 @@ def variants(line, rng):
         q = list(parts)
         for i, p in zip(idxs, ptrs): q[i] = _hex(p + p)
         out.append(" ".join(q))
+        # many tokens / long text: every pointer argument repeated 20 times (> 40 tokens, > 150 bytes for most)
+        if all(0 < len(p) <= 16 for p in ptrs):
+            q = list(parts)
+            for i, p in zip(idxs, ptrs): q[i] = _hex(p * 20)
+            out.append(" ".join(q))
         # first argument doubled only (prefix relations between the arguments)
         if len(idxs) > 1:
             q = list(parts); q[idxs[0]] = _hex(ptrs[0] + ptrs[0]); out.append(" ".join(q))
@@ -82,12 +87,22 @@ def variants(line, rng):
 WORD_ALPHA = [b"/", b".", b"a", b"~", b"0", b"1", b"}", b":", b"~0", b"~1", b"."]
 PTR_ALPHA = [b"/", b"/", b".", b"a", b"a", b"~0", b"~1", b"0", b"-", b"}", b"\xef\xbd\x9e", b"\xf0\x9f\x98\x80"]
 
+def _len(rng, lo, hi):
+    # mostly word scale (8..24), one in five cache-line / SIMD-block scale (25..140)
+    return rng.randint(lo, hi) if rng.random() < 0.8 else rng.randint(hi + 1, 140)
+
 def _rand_str(rng, lo=8, hi=24):
-    return b"".join(rng.choice(WORD_ALPHA) for _ in range(rng.randint(lo, hi)))
+    n = _len(rng, lo, hi)
+    if n > hi and rng.random() < 0.6:
+        # long plain run with the interesting bytes near one end: what block-wise scanners skip over
+        core = b"".join(rng.choice(WORD_ALPHA) for _ in range(rng.randint(1, 6)))
+        pad = b"a" * (n - len(core))
+        return pad + core if rng.random() < 0.5 else core + pad
+    return b"".join(rng.choice(WORD_ALPHA) for _ in range(n))
 
 def _rand_ptr(rng, lo=7, hi=24):
     """a valid pointer text of word-scale length over a tiny alphabet rich in neighbours of the special bytes"""
-    n = rng.randint(lo, hi)
+    n = _len(rng, lo, hi)
     out = b"/"
     while len(out) < n: out += rng.choice(PTR_ALPHA)
     return out
@@ -137,9 +152,82 @@ def wordscale(prop, lines, rng, n):
             out.append(" ".join(t))
     return out
 
+TREE_OPS = {"resolve": (2, 3, None), "resolve_mut": (2, 3, None), "write": (2, 3, 4), "assign": (2, 3, 4), "delete": (2, 3, None)}
+FLOAT = "#d3ff8000000000000"                    # 1.5
+BIGU = "#u18446744073709551615"                 # u64::MAX (json only)
+DATE = "#T" + b"1979-05-27T07:32:00Z".hex()     # toml only
+
+def _wrap(doc, ptr_hex, kind, rng):
+    """embed `doc` inside a bigger document and prefix the pointer accordingly (semantics-preserving for
+    everything the operation does below the wrapper)"""
+    p = bytes.fromhex(ptr_hex)
+    if kind == "deep_obj":
+        k = rng.randint(7, 9)
+        for _ in range(k): doc = "{77:" + doc + "}"
+        return doc, (b"/w" * k + p).hex()
+    if kind == "deep_arr":
+        k = rng.randint(7, 9)
+        for _ in range(k): doc = "[" + doc + "]"
+        return doc, (b"/0" * k + p).hex()
+    if kind == "wide_arr":
+        n, at = 120, rng.choice([100, 105, 119])
+        elems = ["#i%d" % i for i in range(n)]; elems[at] = doc
+        return "[" + ",".join(elems) + "]", (b"/%d" % at + p).hex()
+    if kind == "wide_obj":
+        members = ["%s:#i%d" % (("k%02d" % i).encode().hex(), i) for i in range(25)] + ["77:" + doc]
+        return "{" + ",".join(sorted(members)) + "}", (b"/w" + p).hex()
+    if kind == "long_key":
+        key = b"a" * rng.choice([150, 200, 300])
+        return "{" + key.hex() + ":" + doc + "}", (b"/" + key + p).hex()
+    return doc, ptr_hex
+
+def tree_variants(line, rng, prop):
+    parts = line.split(" ")
+    op = parts[0]
+    out = []
+    if op in TREE_OPS and len(parts) >= 4:
+        di, pi, vi = TREE_OPS[op]
+        backend, doc, ptr = parts[1], parts[di], parts[pi]
+        if not ptr.startswith("x"): return out
+        for kind in ("deep_obj", "deep_arr", "wide_arr", "wide_obj", "long_key"):
+            d2, p2 = _wrap(doc, ptr[1:], kind, rng)
+            q = list(parts); q[di] = d2; q[pi] = "x" + p2
+            out.append(" ".join(q))
+        # unusual scalar kinds where a boolean stood (C09 keeps to the common domain: floats only)
+        if "#t" in line:
+            kinds = [FLOAT] if prop == "C09" else ([FLOAT, BIGU] if backend == "json" else [FLOAT, DATE])
+            for k in kinds:
+                q = list(parts)
+                q[di] = re.sub(r"#t(?=[,\]}]|$)", k, q[di])
+                if vi is not None and vi < len(q): q[vi] = re.sub(r"#t(?=[,\]}]|$)", k, q[vi])
+                out.append(" ".join(q))
+    elif op == "tree_hist" and len(parts) >= 3:
+        backend, doc, steps = parts[1], parts[2], parts[3:]
+        for kind in ("deep_obj", "wide_arr", "long_key"):
+            d2, pre = _wrap(doc, "", kind, rng)
+            pre = bytes.fromhex(pre)
+            new_steps, ok = [], True
+            for st in steps:
+                f = st.split("@")
+                if len(f) < 2 or not f[1].startswith("x"): ok = False; break
+                f[1] = "x" + (pre + bytes.fromhex(f[1][1:])).hex()
+                new_steps.append("@".join(f))
+            if ok: out.append(" ".join([op, backend, d2] + new_steps))
+    return out
+
 def augment(prop, lines, seed, budget=40000):
     """extra lines derived from a deterministic sample of `lines`"""
     rng = random.Random(seed * 1000003 + int(prop[1:]))
+    tree = [l for l in lines if l.split(" ", 1)[0] in TREE_OPS or l.startswith("tree_hist ")]
+    if tree:
+        seen, out = set(lines), []
+        for l in rng.sample(tree, min(len(tree), max(1, budget // 8))):
+            if len(l) > 600: continue
+            for v in tree_variants(l, rng, prop):
+                if v not in seen:
+                    seen.add(v); out.append(v)
+            if len(out) >= budget: break
+        return out
     cand = [l for l in lines if l.split(" ", 1)[0] in STR_OPS or l.split(" ", 1)[0] in PTR_ARGS]
     if not cand and not any(l.startswith("index_str") for l in lines): return []
     # short lines first (the exhaustive scopes), then a random sample
